@@ -75,6 +75,7 @@ type pkgObs struct {
 	Md5sums   []kv // deb: digest, name
 	Mtree     []mtreeLine
 	SigMembers map[string][]byte
+	cpioEntries []cpioEntry // rpm: the payload archive's entries as this file's own reader finds them
 	Raw       map[string][]byte // raw pieces needed for signatures (deb members, apk control segment, rpm header/payload)
 }
 
@@ -568,6 +569,8 @@ func decodeRPM(b []byte) (*pkgObs, error) {
 		return o, err
 	}
 	o.Struct["cpio_trailer"] = trailer
+	o.Raw["cpio"] = plain
+	o.cpioEntries = entries
 	// meta
 	addS := func(name string, tag int) {
 		if s, ok := hdr.str(tag); ok {
